@@ -123,6 +123,15 @@ CLAIMED = {
         "Trusted: Lean kernel + standard axioms; the shape table is read off the code by hand (the fault enumeration ties it to the running code); C07 for the harmlessness of left-over tables.",
         "DESIGN.md §6 C08",
     ),
+    "C17": (
+        "A translator (T-writes, Python ast pass over the creator classes incl. inheritance, aliases, setters and dialect hooks) regenerates on every run the table of attribute writes each "
+        "creator performs while producing SQL, classified dialect-slot / config-constant / self-dependent; Lean 4 proves once and for all that a creator without self-dependent writes answers "
+        "every call sequence like a fresh object and changes only listed attributes, that a self-dependent write makes the second call differ, and - by `decide` over the whole regenerated "
+        "table - that the library has none (`all_creators_stateless`). Tie: every creator class x argument grid x call sequences over the dialects (outputs vs fresh objects, deep snapshots, settings "
+        "dicts unchanged), per-class comparison of the model's verdict with the observed behaviour; SQL parses in its dialect (sqlglot, outside Lean).",
+        "Trusted: Lean kernel + standard axioms; the T-writes translator (flow-insensitive aliasing; the `Local` output hypothesis is checked dynamically, not derived); sqlglot for the parse clause.",
+        "DESIGN.md §6 C17",
+    ),
 }
 PENDING_REASON = "check not built yet (model/theorems/correspondence under construction per DESIGN.md §10b); not claimed until all three exist"
 
